@@ -271,3 +271,10 @@ def backward_slice(fn, rd, expr, helpers=None, prov=None, depth=0, seen=None):
                     if isinstance(r, ast.Return) and r.value is not None:
                         out.append(r.value)
     return out
+
+
+def mentions(text, name):
+    """does canonical text refer to `name` as an attribute (x.name), a string key (['name']) or getattr(x, 'name')"""
+    import re
+
+    return bool(re.search(r"(\.%s\b(?!_))|(['\"]%s['\"])" % (re.escape(name), re.escape(name)), text))
